@@ -24,10 +24,10 @@ func (c *Ctx) runSilentLiteralArm(r *Report, rule string, inPkg func(string) boo
 		ord := 0
 		ast.Inspect(fn.Decl.Body, func(m ast.Node) bool {
 			ts, ok := m.(*ast.TypeSwitchStmt)
-			if !ok || !typeSwitchOnKind(ts) {
+			if !ok || !(typeSwitchOnKind(ts) || typeSwitchOnField(ts, "Value")) {
 				return true
 			}
-			// arms over expression kinds
+			// arms over expression kinds (or, for a switch on a literal's Value, over literal kinds)
 			exprArms := 0
 			var def *ast.CaseClause
 			for _, cl := range ts.Body.List {
@@ -38,7 +38,7 @@ func (c *Ctx) runSilentLiteralArm(r *Report, rule string, inPkg func(string) boo
 				for _, e := range cc.List {
 					if t, ok := info.Types[e]; ok {
 						nm := irTypeName(derefType(t.Type))
-						if len(nm) > 4 && nm[:4] == "Expr" || nm == "Literal" {
+						if len(nm) > 4 && nm[:4] == "Expr" || nm == "Literal" || (len(nm) > 7 && nm[:7] == "Literal") {
 							exprArms++
 						}
 					}
@@ -111,6 +111,9 @@ func (c *Ctx) runSilentLiteralArm(r *Report, rule string, inPkg func(string) boo
 			if len(s) > 1 && s[:2] == "/*" {
 				return true // a comment placeholder is visible in the output, not a value
 			}
+			if s == "" {
+				return true // "no answer" for the caller to handle, not a value
+			}
 			ord++
 			n++
 			cons := fn.id() + ":default#" + itoa(ord)
@@ -135,4 +138,22 @@ func init() {
 			println(o.Verdict, o.Construct, o.Pos, o.Msg)
 		}
 	}
+}
+
+func typeSwitchOnField(ts *ast.TypeSwitchStmt, field string) bool {
+	var x ast.Expr
+	switch a := ts.Assign.(type) {
+	case *ast.AssignStmt:
+		if len(a.Rhs) == 1 {
+			if ta, ok := a.Rhs[0].(*ast.TypeAssertExpr); ok {
+				x = ta.X
+			}
+		}
+	case *ast.ExprStmt:
+		if ta, ok := a.X.(*ast.TypeAssertExpr); ok {
+			x = ta.X
+		}
+	}
+	sel, ok := x.(*ast.SelectorExpr)
+	return ok && sel.Sel.Name == field
 }
